@@ -243,6 +243,60 @@ def gen_lin_expr(rng, d, nd):
     return ["*", e, c] if rng.random() < 0.6 else ["*", c, e]
 
 
+def tree_positions(j, path=()):
+    yield path
+    if j[0] not in "dc":
+        yield from tree_positions(j[1], path + (1,))
+        yield from tree_positions(j[2], path + (2,))
+
+
+def tree_replace(j, path, f):
+    if not path:
+        return f(j)
+    out = list(j)
+    out[path[0]] = tree_replace(j[path[0]], path[1:], f)
+    return out
+
+
+def gen_lin_tree(rng, d, nd):
+    """linear skeleton: + with both sides grown, * with a constant on EITHER side (raw nodes, as a parser builds them)"""
+    if d == 0:
+        return ["d", rng.randrange(nd)] if nd and rng.random() < 0.7 else ["c", rng.choice([-3, -1, 1, 2, 3, 5, 8])]
+    if rng.random() < 0.6:
+        return ["+", gen_lin_tree(rng, d - 1, nd), gen_lin_tree(rng, rng.choice([0, d - 1]), nd)] if rng.random() < 0.5 \
+            else ["+", gen_lin_tree(rng, rng.choice([0, d - 1]), nd), gen_lin_tree(rng, d - 1, nd)]
+    c = ["c", rng.choice([-2, -1, 2, 3, 4, 8])]
+    e = gen_lin_tree(rng, d - 1, nd)
+    return ["*", e, c] if rng.random() < 0.5 else ["*", c, e]
+
+
+def gen_nonlin(rng, nd, k):
+    """a linear skeleton with exactly k nodes (k >= 0), at uniformly chosen positions of the tree, replaced by a
+    non-linear node wrapped around the sub-tree: floordiv / mod / ceildiv by a constant or by a dimension, or a raw
+    product of two dimensions. Returns (expr, paths of the non-linear nodes)."""
+    e = gen_lin_tree(rng, rng.choice([1, 2, 2, 3, 3, 4]), nd)
+    pos = list(tree_positions(e))
+    chosen = sorted(rng.sample(pos, min(k, len(pos))), key=len, reverse=True)   # deepest first: paths stay valid
+
+    def wrap(sub):
+        r = rng.random()
+        if r < 0.8 or nd == 0:
+            tag = rng.choice(["//", "//", "%", "%", "ceildiv"])
+            rhs = ["c", rng.choice([2, 2, 3, 4, 8, 8, 1, -2])] if rng.random() < 0.9 or nd == 0 else ["d", rng.randrange(nd)]
+            return [tag, sub, rhs]
+        return ["*", ["d", rng.randrange(nd)], ["d", rng.randrange(nd)]]
+    for path in chosen:
+        e = tree_replace(e, path, wrap)
+    return e, [list(p_) for p_ in chosen]
+
+
+def from_map_box(n, seed):
+    """points for the oracle: the box [0,10)^n (sampled beyond 1500 points), so beyond every modulus used (<= 8),
+    plus negative and large points"""
+    pts = box_points([10] * n, seed) if n else [[]]
+    return pts + points(seed, n)
+
+
 def has_divmod(j):
     return j[0] not in "dc" and (j[0] in ("//", "%", "ceildiv") or has_divmod(j[1]) or has_divmod(j[2]))
 
@@ -446,12 +500,14 @@ def gen_ap(rng):
     t["A"] = [[v if rng.random() < 0.8 else rng.choice([5, 7, 16, -3]) for v in row] for row in t["A"]]
     case = {"kind": "ap", "cls": cls, "bounds": bounds, "t": t, "map": None,
             "dim": rng.choice([-1, 0, 1, 1, 2, 2, 3, n, n + 2])}
-    if rng.random() < 0.2:   # constructed from an AffineMap: AccessPattern.__init__ converts it
+    if rng.random() < 0.25:   # constructed from an AffineMap: AccessPattern.__init__ converts it
         r = rng.random()
-        if r < 0.85:
+        if r < 0.7:
             rs = [gen_lin_expr(rng, rng.choice([0, 1, 2, 3]), nd) for _ in range(rng.choice([0, 1, 2, 3]))]
         elif r < 0.93:
             rs = [gen_expr(rng, 2, max(nd, 1))]
+        elif r < 0.97 and nd:
+            rs = [gen_nonlin(rng, nd, rng.choice([1, 1, 2]))[0]]
         else:
             rs = [["+", gen_lin_expr(rng, 1, nd), ["d", nd]]]
         case["map"] = {"n": nd, "rs": rs}
@@ -616,6 +672,15 @@ class C19(Prop):
                 nd = max(nd, 2)
                 rs = [["*", gen_lin_expr(rng, 1, nd), ["+", ["d", 0], ["d", 1]]]]
             yield {"kind": "at_frommap", "n": nd, "rs": rs, "seed": rng.randrange(1 << 30)}
+        for _ in range(300 if quick else 8000):   # non-linear nodes at uniformly chosen tree positions + linear controls
+            nd = rng.choice([1, 2, 2, 3])
+            k = rng.choice([0, 1, 1, 1, 1, 1, 2, 2, 3])
+            e, where = gen_nonlin(rng, nd, k)
+            rs = [e]
+            if rng.random() < 0.3:   # next to linear results, before or after
+                other = gen_lin_tree(rng, rng.choice([0, 1, 2]), nd)
+                rs = [other, e] if rng.random() < 0.5 else [e, other]
+            yield {"kind": "at_frommap", "n": nd, "rs": rs, "seed": rng.randrange(1 << 30), "nonlinear_at": where}
         for _ in range(200 if quick else 5000):
             mid = rng.choice([0, 1, 2, 2, 3])
             s = gen_T(rng, cols=mid)
@@ -974,19 +1039,23 @@ class C19(Prop):
                 if lin:
                     bad(f"from_affine_map raised {impl_out['raised']} on a pure linear map: {impl_out.get('msg')}")
                 return out
-            if any(has_divmod(r) for r in case["rs"]):
-                bad("from_affine_map accepted a map with floordiv/ceildiv/mod")
-                return out
-            if not lin:
+            if not all(mul_const_side(r) and max_dim(r) < case["n"] for r in case["rs"]):
                 return out   # not an affine expression (raw d_i * d_j): outside the property's quantifier
+            # whenever the real code ACCEPTS a map, the matrix form must evaluate like the map itself, also beyond the
+            # moduli (a map with floordiv / mod / ceildiv is normally refused; accepting one is only harmless if it
+            # happens to be linear, e.g. (d0 * 4) floordiv 2)
             import numpy as np
-            from xdsl.ir.affine import AffineMap
             t = mk_T(impl_out["ok"])
-            m = AffineMap(case["n"], 0, tuple(to_x(r) for r in case["rs"]))
-            for x in points(case["seed"], case["n"]):
+            exprs = [to_x(r) for r in case["rs"]]
+            nonlin = any(has_divmod(r) for r in case["rs"])
+            for x in (from_map_box(case["n"], case["seed"]) if nonlin else points(case["seed"], case["n"])):
+                want = [safe_eval(e, x) for e in exprs]
+                if any(v is None for v in want):
+                    continue   # the map itself raises ZeroDivisionError here
                 got = [int(v) for v in t.eval(np.array(x, dtype=np.int_))]
-                if got != list(m.eval(x, [])):
-                    bad(f"matrix form evaluates to {got}, the map to {list(m.eval(x, []))} at {x}")
+                if got != want:
+                    bad(f"from_affine_map accepted the map; its matrix form evaluates to {got}, the map to {want} at {x}"
+                        + (" (the map is not a pure linear transformation and must be refused)" if nonlin else ""))
                     break
         elif k == "at_compose":
             ok_shape = case["s"]["nd"] == len(case["o"]["b"])
@@ -1030,10 +1099,12 @@ class C19(Prop):
             n = len(bounds)
             nd_in = amap["n"] if amap else t["nd"]
             must_raise = n != nd_in or (case["cls"] == "schedule" and any(b is None or b <= 0 for b in bounds))
+            may_raise = False
             if amap:
-                must_raise = must_raise or any(has_divmod(r) or max_dim(r) >= amap["n"] for r in amap["rs"])
+                must_raise = must_raise or any(max_dim(r) >= amap["n"] for r in amap["rs"])
+                may_raise = any(has_divmod(r) for r in amap["rs"])   # refused by from_affine_map; if accepted: evaluated below
             if "raised" in impl_out:
-                if not must_raise:
+                if not must_raise and not may_raise:
                     bad(f"{AP_CLS[case['cls']]} constructor raised {impl_out['raised']}: {impl_out.get('msg')}")
                 return out
             if must_raise:
@@ -1045,10 +1116,11 @@ class C19(Prop):
                 if impl_out["built"]["bounds"] != bounds or t["nd"] != amap["n"]:
                     bad("pattern constructed from an AffineMap has other bounds / dims")
                 if all(mul_const_side(r) for r in amap["rs"]):
-                    m = AffineMap(amap["n"], 0, tuple(to_x(r) for r in amap["rs"]))
-                    for x in points(5, amap["n"]):
-                        if py_affine(t, x) != list(m.eval(x, [])):
-                            bad(f"pattern constructed from {amap['rs']} evaluates to {py_affine(t, x)} at {x}")
+                    exprs = [to_x(r) for r in amap["rs"]]
+                    for x in (from_map_box(amap["n"], 5) if may_raise else points(5, amap["n"])):
+                        want = [safe_eval(e, x) for e in exprs]
+                        if all(v is not None for v in want) and py_affine(t, x) != want:
+                            bad(f"pattern constructed from {amap['rs']} evaluates to {py_affine(t, x)} instead of {want} at {x}")
                             break
             elif impl_out["built"] != {"cls": case["cls"], "bounds": bounds, "t": t}:
                 bad("constructor changed bounds or pattern")
